@@ -152,9 +152,9 @@ func progCands(p PProg) []PProg {
 			out = append(out, q)
 		}
 	}
-	if p.Cfg.U != 0 || p.Cfg.Size != 0 || p.Cfg.Pretty || p.Cfg.ShareOpts {
+	if p.Cfg.U != 0 || p.Cfg.Size != 0 || p.Cfg.Pretty || p.Cfg.ShareOpts || p.Cfg.OptOrder != 0 {
 		q := cp()
-		q.Cfg.U, q.Cfg.Size, q.Cfg.Pretty, q.Cfg.ShareOpts = 0, 0, false, false
+		q.Cfg.U, q.Cfg.Size, q.Cfg.Pretty, q.Cfg.ShareOpts, q.Cfg.OptOrder = 0, 0, false, false, 0
 		out = append(out, q)
 	}
 	if p.Cfg.ShareOpts {
